@@ -65,6 +65,20 @@ def check_pair(t_, p, q, num, den, deg, cls):
         v = float(o[1])
         if not (abs(v - want[base]) <= tol_of(base, t) and v >= 0):
             t_.fail("C18|%s|not-closed-form|%s" % (name, cls), dict(case, got=v, want=want[base]))
+    # the caller keeps its arrays and asks again (d(A,B), d(B,A), d(A,B)): every answer is the closed form
+    held = [("chordal", MT.chordal, np.array([Rq, Rp]), np.array([Rq, Rq]))]
+    held += [(name, getattr(MT, name), np.array([filler, fp]), np.array([filler, fq])) for name in QM]
+    for name, fn, A, B in held:
+        for step, (x, y) in enumerate(((A, B), (B, A), (A, B))):
+            t_.calls += 1
+            o = core.outcome(lambda: fn(x, y))
+            if o[0] != "ok":
+                t_.fail("C18|%s|held-arrays|raises-%s|%s" % (name, o[1], cls), dict(case, err=o[2], call=step))
+                break
+            v = float(np.asarray(o[1], dtype=float)[1])
+            if not (abs(v - want[name]) <= tol_of(name, t) and v >= 0):
+                t_.fail("C18|%s|held-arrays|call-%d-not-closed-form|%s" % (name, step + 1, cls), dict(case, got=v, want=want[name]))
+                break
     t_.keys.add((cls, tuple(p), tuple(q)))
 
 
@@ -141,7 +155,7 @@ def run(chk):
     quick = chk.tier == "quick"
     chk.rule = ("pairs emitted by TLC: 2O x 2O (exact relative angles 0/90/120/180 degrees) and a rational grid (C2 exact), thin pairs "
                 "with relative angle 1e-4..0.1 and pi-1e-4.. via the bigint mirror; each through 4 quaternion metrics x {single, "
-                "swapped, negated, N-row} and 3 matrix metrics x {single, swapped, N-row}; seeded invariance/triangle triples; "
+                "swapped, negated, N-row, N-row arrays held by the caller over 3 calls} and 3 matrix metrics x {single, swapped, N-row}; seeded invariance/triangle triples; "
                 "distinct = distinct (class, p, q); trivial (not counted) = equal rotations")
     chk.assume("closed forms in t = relative angle; tolerance 1e-9 (+ eps/sin conditioning for arccos-based metrics, stated in tol_of)")
     res = tlc.run_tlc("MC_Metrics", core.spec_cfg("MC_Metrics"), timeout=900)
